@@ -525,6 +525,8 @@ def run_unit(name, workdir, rlimit=None, seed=None, twins=True):
         res["wall"] = time.time() - t0
         return res
     res["rules_applied"] = g.rules_applied
+    res["inlined"] = list(g.inlined)
+    res["padded"] = ["%s: contract keeps %s, real function has %s" % (fp, tp, rp) for (_n, tp, rp, fp) in g.padded]
     res["frame"] = g.frame_results
     res["contracted"] = [dict(fn=c["fnpath"], src=c["src"], src_line=c["src_line"]) for c in g.contracted]
     text = g.text()
